@@ -63,6 +63,11 @@ func TestRealProbe(t *testing.T) {
 	for _, c := range cases {
 		jobs = append(jobs, job{c.name, c.prog, c.silentStdin, killTimeout, bound})
 	}
+	// a grandchild that survives the kill and keeps the write end of the
+	// command substitution's pipe open
+	for _, kt := range []time.Duration{-1, 500 * time.Millisecond} {
+		jobs = append(jobs, job{fmt.Sprintf("orphan-holds-cmdsubst-pipe-killtimeout=%v", kt), `x=$(sh -c 'sleep 45 & wait')`, false, kt, max(kt, 0) + 20*time.Second})
+	}
 	results := make([]ProbeResult, len(jobs))
 	var wg sync.WaitGroup
 	for i, j := range jobs {
